@@ -85,6 +85,11 @@ def emit(pairs):
             lines.append(f"Definition ua{k} : routine := {H.routine_to_coq(u['a'])}.")
             lines.append(f"Definition ub{k} : routine := {H.routine_to_coq(u['b'])}.")
             spec.append(f"routine_equiv (S (height ua{k})) {inex} (points_of {pts}) ua{k} ub{k}")
+
+            def kid_orders(n):
+                return [[c["name"] for c in n["children"]]] + [o for c in n["children"] for o in kid_orders(c)]
+            # ... and the children of every routine come back in the order the routine holds them in
+            spec.append("[0%nat]" if kid_orders(u["a"]) == kid_orders(u["b"]) else "[1%nat]")
         else:
             spec.append("[1%nat]")
         c = imp["compiled"]
